@@ -304,7 +304,8 @@ def make_run_two(W, shape, known_active=None):
     if ms is None:
         def term(t):
             return ("obj",) if t == n else ("K", t)
-        specs = [dict(pos=[("x", term(a), False), ("y", term(b), False)]) for a, b in methods]
+        # (a third entry marks y as optional: the same types with another optionality are another signature, not a re-registration)
+        specs = [dict(pos=[("x", term(a), False), ("y", term(b), bool(o))]) for a, b, *o in methods]
         specs.append(dict(pos=[("x", ("obj",), False), ("y", ("obj",), False), ("z", ("obj",), False)]))   # extra: other arity
         specs.append(dict(pos=[("x", ("raw", "Z"), False), ("y", ("raw", "Z"), False)]))                     # extra: unrelated class
         ms = _TWO[key] = MethodSet(specs)
@@ -345,7 +346,7 @@ def make_run_two(W, shape, known_active=None):
                     extra_types=(extype.__name__ if extype is not None else None))
         known = []
         if not same and extras and KNOWN_LEVELS in (known_active if known_active is not None else runner.active_known_ids(PID)):
-            idx = [(a, b) for a, b in methods]
+            idx = [(m_[0], m_[1]) for m_ in methods]
             rule = GRule(idx, tuple(shape["args"]), [z3.IntVal(0)] * M, lambda t, c: W.rel(c, t), lambda t, u: W.rel(t, u))
             ok = True
             for out, with_extra in ((base, False), (var, True)):
@@ -519,14 +520,16 @@ def gen_shapes(tier, seed):
     for ms_ in itertools.combinations(pairs, 3):
         twofam.append(dict(n=n, two=[list(t) for t in ms_], args=[0, 1]))
     rng.shuffle(twofam)
+    twins = [dict(n=n, two=[list(p1), list(p1) + [1], list(p2)], args=[0, 1]) for p1 in pairs for p2 in pairs if p1 != p2]
+    rng.shuffle(twins)
     derfam = [dict(n=n, derived=[ta, tb], arg=0) for ta in range(n + 1) for tb in range(n + 1) if ta != tb]
     total = len(plain) + len(rich) + len(kwfam) + len(twofam) + len(derfam)
     rng.shuffle(kwfam)
     rng.shuffle(rich)
     if tier == "quick":
-        shapes = plain + rich[:150] + [r_ for r_ in rich if sum(1 for t_ in r_['methods'] if t_[0] == 'CCF') >= 2][:40] + kwfam[:40] + twofam[:60] + derfam + [dict(n=n, late=True, derived=None, arg=0)] + [dict(n=n, tunion=[a_, b_], derived=None, arg=0) for a_ in range(3) for b_ in range(3) if a_ != b_]
+        shapes = plain + rich[:150] + [r_ for r_ in rich if sum(1 for t_ in r_['methods'] if t_[0] == 'CCF') >= 2][:40] + kwfam[:40] + twofam[:60] + twins[:16] + derfam + [dict(n=n, late=True, derived=None, arg=0)] + [dict(n=n, tunion=[a_, b_], derived=None, arg=0) for a_ in range(3) for b_ in range(3) if a_ != b_]
     else:
-        shapes = plain + rich[:260] + kwfam + twofam[:400] + derfam + [dict(n=n, late=True, derived=None, arg=0)] + [dict(n=n, tunion=[a_, b_], derived=None, arg=0) for a_ in range(3) for b_ in range(3) if a_ != b_]
+        shapes = plain + rich[:260] + kwfam + twofam[:400] + twins[:120] + derfam + [dict(n=n, late=True, derived=None, arg=0)] + [dict(n=n, tunion=[a_, b_], derived=None, arg=0) for a_ in range(3) for b_ in range(3) if a_ != b_]
         for _ in range(40):
             shapes.append(dict(n=4, methods=rng.sample([("K", i) for i in range(4)] + [("obj",)], 4), arg=0))
     for sh in shapes:
@@ -585,7 +588,50 @@ def _native_union_order():
     return len(outs) > 1
 
 
-NATIVE_WITNESSES = {"c06_extras": _native_extras, "c06_union_order": _native_union_order}
+def _native_tied_heads():
+    """witness: X(a: Dep[A2, no], b: B0), W(a: Dep[A1, no], b: B0), Y(a: A0, b: Dep[B2, yes]), V(a: A0, b: Dep[B1, yes]); f(A2(), B2()):
+    X and Y tie for the head of the candidate list, and which of them is met first (the iteration order of a set of functions, i.e. memory
+    addresses) decides whether V joins the first rank (ambiguous with Y) or stays below Y (Y runs)"""
+    from ovld import Dependent, Ovld
+
+    class A0: pass          # noqa: E701
+    class A1(A0): pass      # noqa: E701
+    class A2(A1): pass      # noqa: E701
+    class B0: pass          # noqa: E701
+    class B1(B0): pass      # noqa: E701
+    class B2(B1): pass      # noqa: E701
+
+    def no(x):
+        return False
+
+    def yes(x):
+        return True
+
+    def build(pad):
+        junk = [lambda: 0 for _ in range(pad)]          # noqa: F841  only shifts memory addresses
+
+        def X(a: Dependent[A2, no], b: B0):
+            return "X"
+
+        def W(a: Dependent[A1, no], b: B0):
+            return "W"
+
+        def Y(a: A0, b: Dependent[B2, yes]):
+            return "Y"
+
+        def V(a: A0, b: Dependent[B1, yes]):
+            return "V"
+        o = Ovld()
+        for fn in (X, W, Y, V):
+            o.register(fn)
+        try:
+            return o(A2(), B2())
+        except TypeError:
+            return "ambiguous"
+    return len({build(p) for p in range(120)}) > 1
+
+
+NATIVE_WITNESSES = {"c06_extras": _native_extras, "c06_union_order": _native_union_order, "c06_tied_heads": _native_tied_heads}
 
 
 def main(tier, seed):
